@@ -11,8 +11,9 @@ against the real handlers.  What is claimed: the leader's gate, "member set = fo
 entries of the log" for each handler step, the arithmetic fact that makes one-at-a-time changes safe,
 refusal of "remove self".  What is NOT claimed as a theorem: C01–C04 for clusters whose voter set changes
 (the cluster invariant of lean/PSO/Proofs/RaftDefs.lean is for a fixed voter set); on the implementation
-side that part is covered by the monitors of `corr.c10_membership` only.  Recorded finding D6:
-`reapply_at_commit_counterexample`.
+side that part is covered by the monitors of `corr.c10_membership` only.  The model is of the tree with
+D5, D6 (membership entries take effect when appended only; journal fold at start-up) and D63 (a dump carries
+the member set of its own position) repaired.
 -/
 namespace PSO.C10
 open PSO.NodeSend
@@ -84,23 +85,73 @@ theorem members_eq_fold_append {m0 : List Nat} {s s3 : Node} {o : List Out} {new
 theorem members_eq_fold_restore {s s' : Node} {o : List Out} (prevE lastE : Entry) (cluster : List Nat)
     (h : restoreSnapshot s prevE lastE cluster true = .ok (s', o)) :
     s'.log = [prevE, lastE] ∧ s'.members.Nodup ∧
-    (∀ x, x ∈ s'.members ↔ (x ∈ cluster ∧ s.self ≠ some x)) :=
+    (∀ x, x ∈ s'.members ↔ (x ∈ cluster ∧ s.self ≠ some x)) ∧ s'.self = s.self :=
   PSO.NodeSend.members_eq_fold_restore prevE lastE cluster h
 
-/-- Partial: re-applying an entry at commit time keeps the invariant when it does not change the member
-list (what is missing for the full statement: D6, next theorem). -/
-theorem reapply_at_commit_partial {base : List Nat} {s s' : Node} {o : List Out} {e : Entry}
-    (hinv : MInv base s) (h : reapplyAtCommit s e = .ok (s', o))
-    (hnochange : (memStep s.self s.members e.cmd.kind false).2 = false) : MInv base s' :=
-  PSO.NodeSend.reapply_at_commit_partial hinv h hnochange
+/-- Applying (committing) a membership entry changes nothing (repair D6): no member-set change, no transport call. -/
+theorem apply_membership_entry_no_effect (s : Node) (e : Entry) : reapplyAtCommit s e = .ok (s, []) :=
+  PSO.NodeSend.apply_membership_entry_no_effect s e
 
-/-- D6 (recorded finding): re-application at commit time undoes a later appended change. -/
-theorem reapply_at_commit_counterexample :
-    let e2 : Entry := ⟨⟨.add 3, 1, 80, 56⟩, 2, 1⟩
-    let e3 : Entry := ⟨⟨.rem 3, 2, 80, 56⟩, 3, 1⟩
-    let s : Node := { self := some 0, members := [1, 2], log := [⟨⟨.noop, 0, 1, 54⟩, 1, 0⟩, e2, e3] }
-    foldConfig s.self [1, 2] s.log = [1, 2] ∧
-    (∃ s' o, reapplyAtCommit s e2 = .ok (s', o) ∧ s'.members = [1, 2, 3] ∧ s'.log = s.log) :=
-  PSO.NodeSend.reapply_at_commit_counterexample
+/-- Follower append with conflict rollback keeps the invariant, provided the entries the message makes the handler
+append are effective where they are appended (`MsgEff`: true of every message cut from a leader's log). -/
+theorem members_eq_fold_follower {cfg : Conf} {base : List Nat} {s s' : Node} {src : Nat} {m : AppendMsg} {o : List Out}
+    (hdyn : cfg.dynMember = true) (hinv : MInv base s) (hmsg : MsgEff base s m)
+    (h : followerAppend cfg s src m = (s', .ok o)) : MInv base s' :=
+  PSO.NodeSend.followerAppend_minv hdyn hinv hmsg h
+
+/-- **Member set = fold of the log, for every sequence of the modelled operations** (`MReach`: leader accept /
+refuse, follower append with conflict rollback, apply / commit, snapshot capture at lastApplied, restore from a
+snapshot whose cluster is the fold up to its position, restart with the journal fold at start-up): the node's member
+list is duplicate-free, does not contain the node, equals as a set the fold of the membership commands of its log
+over the base set of the log's first position, and every membership entry of the log was effective. -/
+theorem members_eq_fold {cfg : Conf} (hdyn : cfg.dynMember = true) {base : List Nat} {s : Node}
+    (h : MReach cfg base s) :
+    s.members.Nodup ∧ (∀ n, s.self = some n → n ∉ s.members) ∧
+    (∀ x, x ∈ s.members ↔ x ∈ foldConfig s.self base s.log) ∧ MInv base s :=
+  have hm := PSO.NodeSend.members_eq_fold hdyn h
+  ⟨hm.good.1, hm.good.2, hm.eq, hm⟩
+
+/-- The dump's cluster is the fold at its own position (repair D63): whatever later (possibly uncommitted) entries
+have done to `otherNodes`, the cluster written into a dump labelled `lastApplied = first + p - 1` is the fold of
+`log[..p)` over the base, plus the node itself. -/
+theorem snapshot_cluster_is_fold_at_position {base : List Nat} {s : Node} {first p : Nat} (hinv : MInv base s)
+    (hne : s.log ≠ []) (hidx : IdxOK first s.log) (hla : s.lastApplied + 1 = first + p) :
+    ∃ c, clusterAt s.self s.members s.log s.lastApplied = some c ∧
+      ∀ x, x ∈ c ↔ x ∈ foldConfig s.self base (s.log.take p) ∨ s.self = some x :=
+  PSO.NodeSend.snapshot_cluster_is_fold_at_position hinv hne hidx hla
+
+/-- Last operation wins: membership in the fold is decided by the last entry naming the node, else by the base. -/
+theorem mem_foldConfig_iff {self : Option Nat} (L : List Entry) {m : List Nat} (hm : Good self m) (x : Nat) :
+    (x ∈ foldConfig self m L ↔
+      match lastOp x L with
+      | some true => self ≠ some x
+      | some false => False
+      | none => x ∈ m) :=
+  PSO.NodeSend.mem_foldConfig_iff L hm x
+
+/-- The journal fold at start-up is idempotent: folding the journal over a list that already contains the effects
+of a prefix of it gives the same set as folding it over the base (no validity hypothesis needed). -/
+theorem journalfold_idempotent {self : Option Nat} {base : List Nat} (hb : Good self base) (pre post : List Entry) :
+    SetEq (foldConfig self (foldConfig self base pre) (pre ++ post)) (foldConfig self base (pre ++ post)) :=
+  PSO.NodeSend.journalfold_idempotent hb pre post
+
+/-- … hence a restart (member list containing the effects of a journal prefix, then the fold) re-establishes the
+invariant. -/
+theorem journalfold_restores_invariant {base : List Nat} {s s' : Node} {o : List Out} {k : Nat}
+    (hb : Good s.self base) (hg : Good s.self s.members) (heff : Eff s.self base s.log)
+    (hm : SetEq s.members (foldConfig s.self base (s.log.take k)))
+    (h : journalFold true s = .ok (s', o)) : MInv base s' :=
+  PSO.NodeSend.journalFold_minv hb hg heff hm h
+
+/-- non-vacuity of `members_eq_fold`: a run with an accepted change, an apply, a capture and a restart -/
+example : ∃ s, MReach exConf [1, 2] s ∧ s.members = [1, 2, 3] ∧ s.log.length = 4 := by
+  have h0 : MReach exConf [1, 2] exLeader := .init (by
+    exact ⟨⟨by decide, by intro n h; cases h; decide⟩, ⟨by decide, by intro n h; cases h; decide⟩,
+      by intro x; simp [exLeader, exLog, foldConfig, memStep, changeDir],
+      by simp [exLeader, exLog, Eff, EffStep, changeDir]⟩)
+  have h1 := MReach.leader (cmd := ⟨.add 3, 7, 80, 56⟩) (cb := .loc 41) h0 rfl
+  have h2 := MReach.apply (e := ⟨⟨.add 3, 7, 80, 56⟩, 4, 1⟩) h1 rfl
+  have h3 := MReach.capture h2 rfl
+  exact ⟨_, h3, rfl, rfl⟩
 
 end PSO.C10
